@@ -24,16 +24,18 @@ DigitVal(c) ==
 RECURSIVE SmallDec(_)
 SmallDec(ds) == IF ds = <<>> THEN 0 ELSE 10 * SmallDec(Front(ds)) + DigitVal(Last(ds))
 
+\* Big decimal numbers (more than 9 digits, n >= 32): the accumulator is a little-endian sequence
+\* of n/16 + 1 limbs of 16 bits; the extra limb detects a value >= 2^n.
+RECURSIVE LimbStep(_, _)
+\* 10 * limbs + c, keeping the number of limbs (the caller checks the top limb)
+LimbStep(ls, c) == IF ls = <<>> THEN <<>>
+                   ELSE LET v == Head(ls) * 10 + c IN <<v % 65536>> \o LimbStep(Tail(ls), v \div 65536)
 RECURSIVE BigDec(_, _, _)
-\* acc: n+4 bits holding a value < 2^n
-BigDec(acc, ds, n) ==
-  IF ds = <<>> THEN SubSeq(acc, 5, n + 4)
-  ELSE LET w == n + 4
-           x8 == SubSeq(acc, 4, w) \o <<0, 0, 0>>
-           x2 == SubSeq(acc, 2, w) \o <<0>>
-           x10 == AddC(x8, x2, 0).sum
-           nxt == AddC(x10, BitsOfNat(DigitVal(Head(ds)), w), 0).sum
-       IN IF \E i \in 1..4 : nxt[i] = 1 THEN REJECT ELSE BigDec(nxt, Tail(ds), n)
+BigDec(limbs, ds, n) ==
+  IF ds = <<>> THEN Concat([i \in 1..(n \div 16) |-> BitsOfNat(limbs[(n \div 16) + 1 - i], 16)])
+  ELSE \* (nx is bound by a set comprehension so that it is evaluated exactly once)
+       CHOOSE r \in {IF Last(nx) # 0 THEN REJECT ELSE BigDec(nx, Tail(ds), n)
+                       : nx \in {LimbStep(limbs, DigitVal(Head(ds)))}} : TRUE
 
 RECURSIVE DropZeros(_)
 DropZeros(ds) == IF Len(ds) > 1 /\ Head(ds) = "0" THEN DropZeros(Tail(ds)) ELSE ds
@@ -47,8 +49,8 @@ DecValue(pieces, n) ==
        THEN LET v == SmallDec(sig) IN
             IF n >= 30 THEN ZeroBits(n - 30) \o BitsOfNat(v, 30)
             ELSE IF v < Pow2(n) THEN BitsOfNat(v, n) ELSE REJECT
-       ELSE IF Len(sig) > 78 THEN REJECT      \* 2^256 has 78 digits
-       ELSE BigDec(ZeroBits(n + 4), sig, n)
+       ELSE IF Len(sig) > 78 \/ n < 32 THEN REJECT      \* 2^256 has 78 digits; 10 digits exceed 2^16
+       ELSE BigDec(Rep(0, (n \div 16) + 1), sig, n)
 
 BinValue(pieces, n) ==
   LET ds == Strip(pieces) IN
